@@ -1021,7 +1021,8 @@ theorem step_sched_nil (cfg : Cfg) (a : Arr) (op : Op) (m : Mem) (hinv : a.Inv) 
   | map => simp only [step, map, Mem.check_sched]; exact hs
   | reduce r0 => simp only [step, (reduce_spec cfg.fn a r0 m hinv).2.2]; exact hs
 
-theorem spec_step_length (cfg : Cfg) (xs : List Nat) (op : Op) (blk : Option Stat) :
+theorem spec_step_length (cfg : Cfg) (xs : List Nat) (op : Op) (blk : Option Stat)
+    (hsort : ∀ xs, (cfg.sortFn xs).length = xs.length) :
     (Spec.Seq.step cfg xs op blk).2.length ≤ xs.length + 1 := by
   cases op <;> simp only [Spec.Seq.step]
   case add x => cases blk <;> simp [Spec.Seq.add]
@@ -1042,6 +1043,7 @@ theorem spec_step_length (cfg : Cfg) (xs : List Nat) (op : Op) (blk : Option Sta
     simp only [Spec.Seq.filterMut]; split
     · simp
     · have := List.length_filter_le cfg.pred xs; simp only; omega
-  all_goals simp
+  case sort => simp [Spec.Seq.sort, hsort]
+  all_goals first | omega | (simp only; omega) | simp
 
 end CC.Arr
